@@ -459,8 +459,13 @@ fn expected_set(wl: &WriterLog, keep_last: Option<u32>) -> BTreeSet<u32> {
 
 pub fn run(shard: &Shard, prop: &str, mode: Mode) -> Report {
     let mut rep = Report::new(prop);
+    run_into(shard, &mut rep, mode, shard.my_cases());
+    rep
+}
+
+pub fn run_into(shard: &Shard, rep: &mut Report, mode: Mode, cases: Vec<u64>) {
     let thorough = shard.tier == "thorough";
-    for case in shard.my_cases() {
+    for case in cases {
         let cs = shard.case_seed(case);
         let mut rng = Rng::new(cs);
         let p = gen_params(&mut rng, mode, thorough);
@@ -509,7 +514,7 @@ pub fn run(shard: &Shard, prop: &str, mode: Mode) -> Report {
         rep.stat("user_datagrams_dropped", c.user_dropped as i128);
         rep.stat("user_datagrams_duplicated", c.user_dup as i128);
         rep.stat("user_datagrams_delayed", c.user_delayed as i128);
-        let panicked = report_panics(&mut rep, &stats, &replay);
+        let panicked = report_panics(rep, &stats, &replay);
         let Some(o) = res else {
             if !panicked {
                 rep.inconclusive(format!("case {case}: scenario did not finish ({:?})", stats.stop));
@@ -522,9 +527,8 @@ pub fn run(shard: &Shard, prop: &str, mode: Mode) -> Report {
             }
             continue;
         }
-        evaluate(&mut rep, &o, &replay, &c, net.fate_hash(), stats.poll_hash, case);
+        evaluate(rep, &o, &replay, &c, net.fate_hash(), stats.poll_hash, case);
     }
-    rep
 }
 
 fn evaluate(
